@@ -3,7 +3,7 @@
 From Coq Require Import List Bool ZArith NArith QArith.
 From DV Require Import Common.Res Common.Str Common.F64 Common.PyNum.
 Import ListNotations.
-Open Scope res_scope.
+Local Open Scope res_scope.
 
 (** Python [int + float]: the int is converted to a double (exact below 2^53), then added. *)
 Definition int_plus_float (z : Z) (f : fval) : fval :=
